@@ -744,14 +744,20 @@ example : (divRemHighestWord 64 (2 ^ 63) [0, 0, 0] [2 ^ 64 - 1, 2 ^ 64 - 1, 2 ^ 
     (highestDword 64 [2 ^ 64 - 1, 2 ^ 64 - 1, 2 ^ 63])).toOption.map Prod.fst = some (2 ^ 64 - 2) := by
   decide
 
--- the Burnikel–Ziegler hypotheses are met by a 70-word dividend and a 33-word divisor (all words
--- B−1): the divide-and-conquer path runs and reports a quotient carry
-example : thresholdSimple < (List.replicate 33 (2 ^ 64 - 1)).length ∧
-    (List.replicate 33 (2 ^ 64 - 1)).length + thresholdSimple < (List.replicate 70 (2 ^ 64 - 1)).length ∧
-    IsWords 64 (List.replicate 70 (2 ^ 64 - 1)) ∧ IsWords 64 (List.replicate 33 (2 ^ 64 - 1)) ∧
-    2 ^ (64 * (List.replicate 33 (2 ^ 64 - 1)).length) ≤ 2 * val 64 (List.replicate 33 (2 ^ 64 - 1)) ∧
-    (bzDivRemInPlace 64 (List.replicate 70 (2 ^ 64 - 1)) (List.replicate 33 (2 ^ 64 - 1))
-      (highestDword 64 (List.replicate 33 (2 ^ 64 - 1)))).toOption.map Prod.snd = some 1 := by
+-- the Burnikel–Ziegler hypotheses are met by a divisor of `thresholdSimple + 1` words and a dividend of
+-- `2 * thresholdSimple + 6` words (all words B−1; 33 and 70 words at the current threshold 32 — the sizes follow
+-- the REGENERATED constant, so a different valid threshold keeps the example meaningful): the divide-and-conquer
+-- path runs and reports a quotient carry
+example : thresholdSimple < (List.replicate (thresholdSimple + 1) (2 ^ 64 - 1)).length ∧
+    (List.replicate (thresholdSimple + 1) (2 ^ 64 - 1)).length + thresholdSimple
+      < (List.replicate (2 * thresholdSimple + 6) (2 ^ 64 - 1)).length ∧
+    IsWords 64 (List.replicate (2 * thresholdSimple + 6) (2 ^ 64 - 1)) ∧
+    IsWords 64 (List.replicate (thresholdSimple + 1) (2 ^ 64 - 1)) ∧
+    2 ^ (64 * (List.replicate (thresholdSimple + 1) (2 ^ 64 - 1)).length)
+      ≤ 2 * val 64 (List.replicate (thresholdSimple + 1) (2 ^ 64 - 1)) ∧
+    (bzDivRemInPlace 64 (List.replicate (2 * thresholdSimple + 6) (2 ^ 64 - 1))
+      (List.replicate (thresholdSimple + 1) (2 ^ 64 - 1))
+      (highestDword 64 (List.replicate (thresholdSimple + 1) (2 ^ 64 - 1)))).toOption.map Prod.snd = some 1 := by
   decide +kernel
 
 -- a ConstDivisor of the class that was defective before commit 2941615
@@ -845,8 +851,13 @@ example : (1 : Nat) ≤ 64 ∧ 2 ^ 64 ≤ 2 * (2 ^ 63 + 5) ∧ 2 ^ 63 + 5 < 2 ^ 
   refine ⟨by decide, by decide, by decide, by decide, by decide +kernel, by decide +kernel⟩
 
 -- scratch memory: a Burnikel–Ziegler sized division (200 by 80 words) needs, and gets, a non-empty chunk
-example : (80 : Nat) ≤ 200 ∧ 2 ≤ 80 ∧ divMemReq 200 80 = .ok 92 ∧ memDivide 200 80 = .ok () := by
-  refine ⟨by decide, by decide, by decide +kernel, by decide +kernel⟩
+-- (sizes follow the regenerated threshold: 200 by 80 words at the current value 32)
+example : 2 * thresholdSimple + 16 ≤ 6 * thresholdSimple + 8 ∧ 2 ≤ 2 * thresholdSimple + 16 ∧
+    divMemReq (6 * thresholdSimple + 8) (2 * thresholdSimple + 16)
+      = .ok (dcMemReq (6 * thresholdSimple + 8) (2 * thresholdSimple + 16)) ∧
+    0 < dcMemReq (6 * thresholdSimple + 8) (2 * thresholdSimple + 16) ∧
+    memDivide (6 * thresholdSimple + 8) (2 * thresholdSimple + 16) = .ok () := by
+  refine ⟨by decide, by decide, by decide +kernel, by decide +kernel, by decide +kernel⟩
 
 -- primitive kernels: i8 operands in range, neither zero divisor nor MIN / −1; and the two panics
 example : (⟨8, true⟩ : PrimDiv.PTy).InRange (-128) ∧ (⟨8, true⟩ : PrimDiv.PTy).InRange 3 ∧ (3 : Int) ≠ 0 ∧
